@@ -127,11 +127,11 @@ def run(chk, replay=None):
         dist = {'list': [[1.5, numpy.float64(-2.25), -math.inf, 3], [0.0, 0, 1.0]][k % 2], 'array': numpy.array([0.5, 1.0, float('nan')]), 'empty': [] if k % 2 else numpy.array([]),
                 'law': ('poisson', 12.5), 'word': 'normal'}[c['dist']]
         # names are text whatever they look like: a forecast called '2019', a catalog called '1992', 'nan', '1e5' ...
-        numlike = ['2019', '7', 'nan', 'inf', '1e5', '007', '-3.5', 'forecast-a']
+        numlike = ['2019', '7', 'nan', 'inf', '1e5', '007', '-3.5', 'forecast-a', ' padded name ', 'line-break\n', '\ttab', '']
         names = {'str': numlike[k % len(numlike)], 'pair': (numlike[k % len(numlike)], 'forecast-b'), 'none': None}[c['names']]
         cls = getattr(models, c['cls'])
         return cls(test_distribution=dist, name=('T-%d' % k if k % 7 else str(k)), observed_statistic=stat, quantile=quant, status=['normal', 'not-valid', 'undersampled'][k % 3],
-                   sim_name=names, obs_name=['obs', '1992', 'None', 'true'][k % 4], min_mw=[4.95, numpy.float64(5.95), None, 0.0, numpy.float64(0.0), -1][k % 6], obs_catalog_repr='repr')
+                   sim_name=names, obs_name=['obs', '1992', 'None', 'true', ' obs ', 'obs\n'][k % 6], min_mw=[4.95, numpy.float64(5.95), None, 0.0, numpy.float64(0.0), -1][k % 6], obs_catalog_repr='repr')
 
     traces, metas = [], []
 
@@ -184,9 +184,12 @@ def run(chk, replay=None):
                ('binomial.binary_paired_t_test', lambda c: be.binary_paired_t_test(fpos, fc2, c)),
                ('brier.brier_score_test', lambda c: br.brier_score_test(fpos, c, num_simulations=5, seed=1))]
     produced = {}
-    for oname, w in obs_cases.items():
+    # names are text: blanks and line breaks around them, or digits only, are part of the name
+    fc.name, fpos.name, fc2.name = ' padded forecast ', 'positive\n', '2019'
+    for oi, (oname, w) in enumerate(obs_cases.items()):
         for fname, fn in gridded:
             cat = B.catalog(w, 3, 3)
+            cat.name = [' observed ', 'obs', '1992\n', '\tcat'][oi % 4]
             r_ = guarded_timeout(20, fn, cat)
             chk.count()
             if isinstance(r_, Raised) or r_ is None:
